@@ -319,6 +319,13 @@ let do_judgesearch (t : string list) : string =
 
 (* judgemate <game> @ <answer of one search>: C11 on every info line with a mate score, plus the mate-in-one clause *)
 let do_judgemate (t : string list) : string =
+  (* optional first token L<k>: announced distances up to k moves are decided by the exhaustive solver (default 2; 3 is affordable on sparse positions) *)
+  let (limit, t) = match t with
+    | x :: r when String.length x = 2 && x.[0] = 'L' -> (int_of_string (String.sub x 1 1), r)
+    | _ -> (2, t) in
+  let memo : (int, bool) Hashtbl.t = Hashtbl.create 8 in
+  let solved (n : int) (f : unit -> bool) : bool =
+    match Hashtbl.find_opt memo n with Some v -> v | None -> let v = f () in Hashtbl.add memo n v; v in
   let (gt, ans) = split_on "@" t in
   let g = parse_game (Array.of_list gt) 0 in
   let text = String.concat " " ans in
@@ -338,9 +345,9 @@ let do_judgemate (t : string list) : string =
          if kind = "mate" then begin
            let n = int_of_string v in
            if n = 0 then (if not (spec_mated_in (n_of_int 0) g) then add "C11:false-mate-0")
-           else if abs n <= 2 then begin
-             if n > 0 && not (spec_mates_in (n_of_int n) g) then add (Printf.sprintf "C11:false-mate+%d" n);
-             if n < 0 && not (spec_mated_in (n_of_int (- n)) g) then add (Printf.sprintf "C11:false-mate%d" n)
+           else if abs n <= limit then begin
+             if n > 0 && not (solved n (fun () -> spec_mates_in (n_of_int n) g)) then add (Printf.sprintf "C11:false-mate+%d" n);
+             if n < 0 && not (solved n (fun () -> spec_mated_in (n_of_int (- n)) g)) then add (Printf.sprintf "C11:false-mate%d" n)
            end else notes := "unchecked-distance" :: !notes;
            if spec_legal_line g ms && spec_line_mates g ms then begin
              let want = if n > 0 then 2 * n - 1 else 2 * (- n) in
